@@ -315,7 +315,7 @@ def gen_cases(out, tier):
     rng = core.rng("c16")
     g = Gen(out, tier)
     BB = bases()
-    n_fam = 140 if tier == "quick" else 1400
+    n_fam = 140 if tier == "quick" else 700
 
     # ---- 1. integer-shift families, all operations
     for i in range(n_fam):
@@ -339,7 +339,7 @@ def gen_cases(out, tier):
     kt = int(TOL * 2 ** 44)
     eps_tr = [F(k, 2 ** 44) for k in (kt, kt + 1, -kt, -kt - 1, 1, 0)] + [F(1, 2), F(1, 2) - F(kt, 2 ** 44),
                                                                           F(-1, 2) + F(kt + 1, 2 ** 44), F(1, 4)]
-    n_pert = 1 if tier == "quick" else 4
+    n_pert = 1 if tier == "quick" else 3
     simple_bases = [b for b in BB if b[1] in ("north-up", "rot90", "sheared", "mirrored-x", "rot45")]
     for base, bname in simple_bases:
         if base[2] != 0 and abs(base[2]) > 10:
@@ -364,7 +364,7 @@ def gen_cases(out, tier):
                     a = gb((3, 4), amul(base, M), crs)
                     g.pair_ops(a, ref, tol=tol, tag="custom-tol")
     # ---- 3. snapping: arbitrary dyadic sub-pixel offsets
-    for i in range(60 if tier == "quick" else 600):
+    for i in range(60 if tier == "quick" else 300):
         base, bname = rng.choice(BB)
         crs = rng.choice([0, 1, None])
         p = (dy(rng, -6, 6, 4), dy(rng, -6, 6, 4))
@@ -373,7 +373,7 @@ def gen_cases(out, tier):
         b = gb((3, 3), amul(base, atr(*q)), crs)
         g.snap(a, b, tag="family")
     # ---- 4. malformed stream: different CRS, scale, rotation, degenerate affines, empty lists
-    for i in range(40 if tier == "quick" else 300):
+    for i in range(40 if tier == "quick" else 150):
         base, bname = rng.choice(BB)
         ca, cb = rng.choice([(0, 1), (None, 0), (0, None), (1, 2), (0, 0)])
         kind = rng.choice(["crs", "scale", "rot", "degenerate-ref", "degenerate-a", "half"])
@@ -396,7 +396,7 @@ def gen_cases(out, tier):
         g.snap(a, b, tag="malformed-" + kind)
     g.nary_ops([], tag="malformed-empty")
     # ---- 5. enclosing
-    for i in range(120 if tier == "quick" else 1200):
+    for i in range(120 if tier == "quick" else 600):
         base, bname = rng.choice(BB)
         crs = rng.choice([0, 1, 2])
         G = fam(base, crs, (rng.randint(-5, 5), rng.randint(-5, 5), rng.randint(1, 9), rng.randint(1, 9)))
@@ -450,7 +450,7 @@ def gen_cases(out, tier):
         if rng.random() < 0.8:   # mostly proper boxes; the rest inverted
             vals = [min(vals[0], vals[2]), min(vals[1], vals[3]), max(vals[0], vals[2]), max(vals[1], vals[3])]
         return vals
-    for i in range(300 if tier == "quick" else 3000):
+    for i in range(300 if tier == "quick" else 1500):
         n = rng.choice([0, 1, 2, 2, 2, 3, 4, 6])
         crs = rng.choice([0, 1, None])
         boxes = []
